@@ -32,7 +32,7 @@ func fieldAccesses(fn *ssa.Function, owner *types.Named) []access {
 	collect = func(s *types.Struct, depth int) {
 		for i := 0; s != nil && i < s.NumFields() && depth < 3; i++ {
 			f := s.Field(i)
-			if es, ok := f.Type().Underlying().(*types.Struct); ok && f.Embedded() {
+			if es, ok := f.Type().Underlying().(*types.Struct); ok && ssax.Grouping(f) {
 				embedded = append(embedded, f.Type())
 				collect(es, depth+1)
 			}
@@ -57,7 +57,7 @@ func fieldAccesses(fn *ssa.Function, owner *types.Named) []access {
 				return
 			}
 			_, f, _ := ssax.FieldAddrOf(x)
-			if _, isStruct := f.Type().Underlying().(*types.Struct); isStruct && f.Embedded() {
+			if ssax.Grouping(f) {
 				return // selection of the embedded part: the accesses are those of its fields
 			}
 			refs := x.Referrers()
@@ -214,7 +214,7 @@ func (m *model) ruleSealed(s *report.Sink) {
 		switch {
 		case f.Exported():
 			exp++
-		case f.Embedded():
+		case f.Embedded() || ssax.Grouping(f):
 			// an embedded unexported struct without methods only groups fields; anything else (an interface, a type
 			// with methods, an exported type) opens the job's state or behaviour to other goroutines
 			_, isStruct := f.Type().Underlying().(*types.Struct)
